@@ -108,7 +108,7 @@ func Start(id, level string) *Run {
 		r.Seed, _ = strconv.ParseInt(s, 10, 64)
 	}
 	r.Replay = *replay
-	budget := 120 * time.Second
+	budget := 240 * time.Second // quick tiers finish in 1-70 s on an idle machine; the budget only matters on a loaded one (then: exhaustive=false, exit 0)
 	if r.Tier == "thorough" {
 		budget = 40 * time.Minute
 	}
